@@ -107,7 +107,9 @@ class GenCtx:
         return NotImplemented
 
     def executor(self, contracts):
-        return S.SExec(classdef=self.cls, enums=self.enums, models=self.models, contracts=contracts, on_attr=self.on_attr)
+        # imported modules (e.g. `import json`) are visible as library modules; first-party names are not resolved here
+        mods = {k: v for k, v in self.mod.names.items() if "." not in v and not v.startswith("pyab_experiment")}
+        return S.SExec(classdef=self.cls, enums=self.enums, models=self.models, contracts=contracts, on_attr=self.on_attr, module_names=mods)
 
     def me(self, expose=False, ast_node=None, depth=None):
         return S.Obj("PythonCodeGen", _experiment_ast=ast_node, _local_vars=S.SetT(), _conditional_ids=S.SetT(), _indentation_char="\t",
@@ -254,6 +256,21 @@ def link_generator(ctx, mutate=None, tag=""):
             struct_obl("%s/==sorted(set)" % prop, prop, "%s is the sorted list of the DISTINCT names (no dependence on set iteration order or declaration order)" % prop,
                        ok, repr(r), ("C01", "C09", "C12"), model={"result": repr(r)})
     run("helpers", "indent", ("C02", "C14", "C01", "C07", "C09", "C12", "C13"), helpers)
+
+    def init():
+        ex = G.executor({})
+        node = S.Sym("ast", "node:ExperimentAST")
+        for expose in (True, False):
+            me = S.Obj("PythonCodeGen")
+            ex.call_method("__init__", me, [node], {"expose_experiment_variant_function": expose})
+            a = me.attrs
+            ok = (a.get("_experiment_ast") is node and isinstance(a.get("_local_vars"), S.SetT) and not a["_local_vars"].atoms and
+                  isinstance(a.get("_conditional_ids"), S.SetT) and not a["_conditional_ids"].atoms and a.get("_indent_depth") == 0 and
+                  a.get("_newline") == "\n" and a.get("_indentation_char") in ("\t", " ", "  ", "    ") and a.get("_expose_fn") is expose)
+            struct_obl("__init__/fresh-state(expose=%s)" % expose, "__init__",
+                       "a new generator starts with no recorded fields, depth 0, newline '\\n', whitespace indentation, and the layout flag it was given (no state shared between generators)",
+                       ok, repr({k: v for k, v in a.items() if k != "_experiment_ast"}), ("C01", "C14", "C02", "C07", "C09"))
+    run("init", "__init__", ("C01", "C14", "C02", "C07", "C09"), init)
 
     # ---- B. operators --------------------------------------------------------------------------------------------
     def ops():
